@@ -57,6 +57,30 @@ var inlinableSet map[*ssa.Function]bool
 // closureMC: for a closure interpreted inline, the instruction creating it (its bindings give the captured variables).
 var closureMC map[*ssa.Function]*ssa.MakeClosure
 
+// deferClosure: closures whose only use is one defer statement (a subset of closureMC).
+var deferClosure map[*ssa.Function]*ssa.MakeClosure
+
+// deferCallee: the function a defer statement runs when that function is interpreted inline at the exit: a closure used
+// only by this defer, or a helper outside the pinned decomposition.
+func deferCallee(d *ssa.Defer) *ssa.Function {
+	if d == nil || d.Common().IsInvoke() {
+		return nil
+	}
+	var g *ssa.Function
+	if mc, ok := d.Call.Value.(*ssa.MakeClosure); ok {
+		g, _ = mc.Fn.(*ssa.Function)
+		if g == nil || deferClosure[g] != mc {
+			return nil
+		}
+	} else {
+		g = d.Common().StaticCallee()
+	}
+	if g == nil || !Inlinable(g) || inlineStack[g] || inlineDepth >= maxInlineDepth {
+		return nil
+	}
+	return g
+}
+
 func computeInlinable(p *Prog) {
 	inlinableSet = map[*ssa.Function]bool{}
 	cand := map[*ssa.Function]bool{}
@@ -80,6 +104,9 @@ func computeInlinable(p *Prog) {
 				if c, ok := in.(*ssa.Call); ok && !c.Common().IsInvoke() {
 					callee = c.Common().Value
 				}
+				if d, ok := in.(*ssa.Defer); ok && !d.Common().IsInvoke() {
+					callee = d.Common().Value // a deferred helper is interpreted where the defers run
+				}
 				for _, op := range in.Operands(nil) {
 					if op == nil || *op == nil {
 						continue
@@ -97,8 +124,16 @@ func computeInlinable(p *Prog) {
 		ok := true
 		if n := p.CG.Nodes[f]; n != nil {
 			for _, e := range n.In {
-				c, isCall := e.Site.(*ssa.Call)
-				if !isCall || c.Common().StaticCallee() != f {
+				switch c := e.Site.(type) {
+				case *ssa.Call:
+					if c.Common().StaticCallee() != f {
+						ok = false
+					}
+				case *ssa.Defer:
+					if c.Common().StaticCallee() != f {
+						ok = false
+					}
+				default:
 					ok = false
 				}
 			}
@@ -145,6 +180,43 @@ func computeInlinable(p *Prog) {
 						delete(inlinableSet, g)
 						continue
 					}
+					closureMC[g] = mc
+					inlinableSet[g] = true
+				}
+			}
+		}
+	}
+	// local closures whose only use is one defer statement: interpreted where the deferred calls run
+	deferClosure = map[*ssa.Function]*ssa.MakeClosure{}
+	for _, f := range p.RepoFns {
+		for _, b := range f.Blocks {
+			for _, in := range b.Instrs {
+				mc, ok := in.(*ssa.MakeClosure)
+				if !ok {
+					continue
+				}
+				g, _ := mc.Fn.(*ssa.Function)
+				if g == nil || len(g.Blocks) == 0 || inlinableSet[g] {
+					continue
+				}
+				n, okUse := 0, true
+				if refs := mc.Referrers(); refs != nil {
+					for _, r := range *refs {
+						if _, dbg := r.(*ssa.DebugRef); dbg {
+							continue
+						}
+						n++
+						d, isDefer := r.(*ssa.Defer)
+						if !isDefer || d.Call.Value != ssa.Value(mc) {
+							okUse = false
+						}
+					}
+				}
+				if okUse && n == 1 {
+					if _, dup := closureMC[g]; dup {
+						continue
+					}
+					deferClosure[g] = mc
 					closureMC[g] = mc
 					inlinableSet[g] = true
 				}
@@ -259,6 +331,19 @@ func computeInlinable(p *Prog) {
 							}
 						}
 					}
+					if d, ok := in.(*ssa.Defer); ok {
+						var g *ssa.Function
+						if mc, isMC := d.Call.Value.(*ssa.MakeClosure); isMC {
+							g, _ = mc.Fn.(*ssa.Function)
+						} else {
+							g = d.Common().StaticCallee()
+						}
+						if g != nil && inlinableSet[g] {
+							if v := h(g); v > m {
+								m = v
+							}
+						}
+					}
 				}
 			}
 			onStack[f] = false
@@ -277,11 +362,13 @@ func computeInlinable(p *Prog) {
 
 // isCalleeOperand: op is the Value slot of the call (not one of its arguments).
 func isCalleeOperand(in ssa.Instruction, op *ssa.Value) bool {
-	c, ok := in.(*ssa.Call)
-	if !ok {
-		return false
+	switch c := in.(type) {
+	case *ssa.Call:
+		return op == &c.Call.Value
+	case *ssa.Defer:
+		return op == &c.Call.Value
 	}
-	return op == &c.Call.Value
+	return false
 }
 
 // InlinedHelpers lists the helpers that are interpreted inline (for evidence).
@@ -413,6 +500,7 @@ func templates(g *ssa.Function, target ssa.Instruction) ([]*PathState, bool) {
 func resetInlineMemo() {
 	tripMemo = map[*ssa.Function]map[*ssa.BasicBlock]*tripLoop{}
 	dataLoopMemo = map[*ssa.Function]map[*ssa.BasicBlock]*dataLoop{}
+	valueOrErrorMemo = map[*ssa.Function]int{}
 	pureMemo = map[*ssa.Function]int{}
 	tmplMemo = map[tmplKey][]*PathState{}
 	tmplComplete = map[tmplKey]bool{}
@@ -450,6 +538,19 @@ func DeepInstrs(fn *ssa.Function) []ssa.Instruction {
 						for _, cbf := range cbOf(c) {
 							walk(cbf, depth+1)
 						}
+					}
+				}
+				if d, ok := in.(*ssa.Defer); ok && depth < maxInlineDepth {
+					var g *ssa.Function
+					if mc, isMC := d.Call.Value.(*ssa.MakeClosure); isMC {
+						if cf, _ := mc.Fn.(*ssa.Function); cf != nil && deferClosure[cf] == mc {
+							g = cf
+						}
+					} else if sc := d.Common().StaticCallee(); sc != nil && Inlinable(sc) {
+						g = sc
+					}
+					if g != nil {
+						walk(g, depth+1)
 					}
 				}
 			}
@@ -583,8 +684,22 @@ func (s *PathState) applyTemplate(call *ssa.Call, g *ssa.Function, t *PathState,
 }
 
 func (s *PathState) applyTemplateMode(call *ssa.Call, g *ssa.Function, t *PathState, partial, pure bool) (ok bool, panicked bool) {
-	args := s.callEvent("call", call).Args
-	tag := "⟦" + shortCallee(g.String()) + "@" + s.iid(call) + "⟧"
+	return s.applyTemplateAt(call, call, nil, g, t, partial, pure)
+}
+
+// applyTemplateDefer splices one path of a deferred function into s at the point where the deferred calls run; its
+// arguments are those evaluated when the defer statement executed.
+func (s *PathState) applyTemplateDefer(d *ssa.Defer, args []*Term, g *ssa.Function, t *PathState, partial bool) (ok bool, panicked bool) {
+	return s.applyTemplateAt(d, nil, args, g, t, partial, false)
+}
+
+func (s *PathState) applyTemplateAt(site ssa.CallInstruction, call *ssa.Call, dargs []*Term, g *ssa.Function, t *PathState, partial, pure bool) (ok bool, panicked bool) {
+	args := dargs
+	if call != nil {
+		args = s.callEvent("call", call).Args
+	}
+	deferred := call == nil
+	tag := "⟦" + shortCallee(g.String()) + "@" + s.iid(site) + "⟧"
 	pm := map[string]*Term{}
 	for i, prm := range g.Params {
 		if i < len(args) {
@@ -612,7 +727,7 @@ func (s *PathState) applyTemplateMode(call *ssa.Call, g *ssa.Function, t *PathSt
 			r = x
 		case "freevar":
 			r = x
-			for _, a := range call.Call.Args {
+			for _, a := range site.Common().Args {
 				if mc, ok := a.(*ssa.MakeClosure); ok {
 					if cf, _ := mc.Fn.(*ssa.Function); cf != nil && callbackSet[cf] == mc {
 						for i, fv := range cf.FreeVars {
@@ -761,6 +876,9 @@ func (s *PathState) applyTemplateMode(call *ssa.Call, g *ssa.Function, t *PathSt
 		ne.Res = tr(e.Res)
 		ne.Inlined = true
 		ne.AtExit = nil
+		if deferred {
+			ne.Deferred = true
+		}
 		switch e.Kind {
 		case "store":
 			s.mem[ne.Args[0].K] = ne.Args[1]
@@ -779,7 +897,7 @@ func (s *PathState) applyTemplateMode(call *ssa.Call, g *ssa.Function, t *PathSt
 			s.mem[strings.Replace(k, "alloc@", tag+"alloc@", 1)] = tr(v)
 		}
 	}
-	if !partial && !panicked {
+	if !partial && !panicked && call != nil {
 		switch len(rets) {
 		case 0:
 		case 1:
@@ -792,7 +910,7 @@ func (s *PathState) applyTemplateMode(call *ssa.Call, g *ssa.Function, t *PathSt
 			s.env[call] = &Term{K: "tuple(" + strings.Join(ks, ", ") + ")", Op: "tuple", Args: rets, V: call}
 		}
 	}
-	s.Inlines = append(s.Inlines, fmt.Sprintf("%s@%s", shortCallee(g.String()), s.iid(call)))
+	s.Inlines = append(s.Inlines, fmt.Sprintf("%s@%s", shortCallee(g.String()), s.iid(site)))
 	return true, panicked
 }
 
@@ -1006,3 +1124,50 @@ func NonNilGlobal(g *ssa.Global) bool { return nonNilGlobals[g] }
 
 // CurProg returns the program of the current load.
 func CurProg() *Prog { return curProg }
+
+// runDefersFork executes the deferred calls of the path (last registered first). Closures used only by their defer
+// statement and helpers outside the pinned decomposition are interpreted here, with memory as it is at the exit (one
+// continuation per feasible path of theirs); every other deferred call becomes a call event as before.
+func (s *PathState) runDefersFork(idx int, cont func(*PathState), drop func(bool)) {
+	for ; idx >= 0; idx-- {
+		ev := s.defers[idx]
+		d, _ := ev.In.(*ssa.Defer)
+		g := deferCallee(d)
+		if g == nil {
+			ev.Kind = "call"
+			ev.Deferred = true
+			ev.AtExit = s.snapshot()
+			s.Events = append(s.Events, ev)
+			if ci, ok := ev.In.(ssa.CallInstruction); ok {
+				s.clobberClosureCall(ci, false)
+			}
+			continue
+		}
+		ts, complete := templates(g, nil)
+		if !complete {
+			drop(true)
+			return
+		}
+		for _, t := range ts {
+			s2 := s.clone()
+			ok, _ := s2.applyTemplateDefer(d, ev.Args, g, t, false)
+			if !ok {
+				drop(false)
+				continue
+			}
+			s2.runDefersFork(idx-1, cont, drop)
+		}
+		return
+	}
+	cont(s)
+}
+
+// hasInlineDefer: some deferred call registered on this path is interpreted inline.
+func (s *PathState) hasInlineDefer() bool {
+	for _, ev := range s.defers {
+		if d, ok := ev.In.(*ssa.Defer); ok && deferCallee(d) != nil {
+			return true
+		}
+	}
+	return false
+}
